@@ -59,6 +59,29 @@ func Register(p *Property) {
 	registry[p.ID] = p
 }
 
+// Advisory lists rule instances (property, key prefix) that are reported but
+// do not fail the check: instances that raised an alarm on a behaviour-preserving
+// patch (benign/, recorded in the reason) and that are not the only detector of
+// any mutant in the detection matrix (tools/matrix.py). Each entry names one
+// rule instance and says why.
+type AdvisoryEntry struct {
+	Prop, KeyPrefix, Why string
+}
+
+var advisory []AdvisoryEntry
+
+// RegisterAdvisory adds advisory entries.
+func RegisterAdvisory(es ...AdvisoryEntry) { advisory = append(advisory, es...) }
+
+func isAdvisory(prop, key string) (string, bool) {
+	for _, e := range advisory {
+		if e.Prop == prop && strings.HasPrefix(key, e.KeyPrefix) {
+			return e.Why, true
+		}
+	}
+	return "", false
+}
+
 // extras are supplementary rule sets added to a registered property (rules
 // written after the property file, e.g. to cover an independently seeded change).
 var extras = map[string][]func(c *Ctx){}
@@ -239,7 +262,7 @@ func RunProperty(p *Prog, prop *Property, tier string, seed int, evidencePath, f
 	if err != nil {
 		c.Undecided("internal", "known_findings", err.Error())
 	}
-	var bad, known []Obligation
+	var bad, known, advis []Obligation
 	discharged, nontriv := 0, 0
 	distinct := map[string]bool{}
 	for i := range c.Obls {
@@ -263,10 +286,17 @@ func RunProperty(p *Prog, prop *Property, tier string, seed int, evidencePath, f
 			if matched {
 				o.Status = Known
 				known = append(known, *o)
+			} else if why, adv := isAdvisory(prop.ID, o.Key()); adv {
+				o.Detail += " [advisory only: " + why + "]"
+				o.Status = "advisory"
+				advis = append(advis, *o)
 			} else {
 				bad = append(bad, *o)
 			}
 		}
+	}
+	for _, o := range advis {
+		fmt.Printf("ADVISORY: property=%s %s %s: %s\n", prop.ID, o.Key(), o.Pos, o.Detail)
 	}
 	for _, o := range known {
 		fmt.Printf("KNOWN-FINDING: property=%s %s %s: %s\n", prop.ID, o.Key(), o.Pos, o.Detail)
@@ -302,6 +332,7 @@ func RunProperty(p *Prog, prop *Property, tier string, seed int, evidencePath, f
 		"samples":             samples,
 		"rules_applied":       rules,
 		"known_findings":      len(known),
+		"advisory":            advis,
 		"instance_floor":      prop.Floor,
 		"packages":            len(p.ByPath),
 		"functions_in_repo":   len(p.All),
